@@ -605,4 +605,4 @@ def main(ctx):
 
     # ------------------------------------------------ one Recfile object used for several files (mc/sfreuse.py)
     from mc.sfreuse import reused_recfile_world
-    reused_recfile_world(ctx, "one-recfile-object-several-files", depth=ctx.pick(6, 8))
+    reused_recfile_world(ctx, "one-recfile-object-several-files", depth=ctx.pick(7, 9))
